@@ -474,6 +474,8 @@ def gen_scheme(rng, quick):
             poison = rng.choice([0, 4607182418800017408, 1, -1])
             cases.append(dict(line=f"op=tensor_relin n={n} b={b} dsize={dsize} poison={poison} seed={rng.next() >> 1}", fam="scheme",
                               op="tensor_relin", dom="all", n=n, key=("scheme", "tensor_relin", n, b, dsize, poison != 0), nt=True))
+            cases.append(dict(line=f"op=cmux n={n} b={b} rank={rng.range(1, 2)} dsize={dsize} poison={poison} seed={rng.next() >> 1}", fam="scheme",
+                              op="cmux", dom="all", n=n, key=("scheme", "cmux-poison", n, b, dsize, poison != 0), nt=True))
     return cases
 
 
@@ -544,7 +546,7 @@ def finding_key(c, p, q, rp, rq):
             return K_FUSED
         if op == "big_normalize_sub_assign":
             return K_FUSED_SUB
-    if p == "fref" and q == "nref" and op in ("ckks_mul", "ckks_square", "tensor_relin") and int(d.get("dsize", 1)) >= 3:
+    if p == "fref" and q == "nref" and op in ("ckks_mul", "ckks_square", "tensor_relin", "cmux") and int(d.get("dsize", 1)) >= 3:
         return K_DSIZE
     return None
 
